@@ -200,3 +200,54 @@ def big_text(rng, nlines, period=2, phase=0, term='\n'):
             out += rng.choice([[''], ['', ''], ['', ' '], ['', '', ''], [' ', '']])
         i += 1
     return term.join(out) + term
+
+
+def aligned_text(rng, total, feature, align=4096, head='', unit=None, gaps=True):
+    """A large ASCII text in which one kind of feature is placed exactly on every multiple of `align` characters (and
+    so on every multiple of any larger power of two: 8 KiB, 64 KiB, 1 MiB - whatever block, buffer or page size a reader
+    may use), by padding the line before it.  Features:
+      'crlf-straddle'   CR at offset k*align-1, LF at k*align (lines end in CR LF)
+      'line-start'      a line ends (LF) at k*align-1: the next line starts the block
+      'blank-start'     the same, and the line that starts the block is empty, followed by a continuation line
+      'sep-straddle'    a paragraph separator of two empty lines lies across k*align (one LF before, the rest after)
+      'marker-start'    the line that starts the block is a " ." marker followed by a continuation line
+    `unit(i)` returns the lines of the i-th paragraph (default: a Comment field with a few continuation lines); the
+    last of them is the one padded."""
+    term = '\r\n' if feature == 'crlf-straddle' else '\n'
+    out = [head]
+    pos = len(head)
+    i = 0
+    while pos < total:
+        lines = unit(i) if unit else ['Comment: c%d' % i] + [' line %d %s' % (j, rng.choice(['a', 'foo', 'x y'])) for j in range(rng.randint(1, 5))]
+        i += 1
+        for l in lines[:-1]:
+            out.append(l + term)
+            pos += len(l) + len(term)
+        last = lines[-1]
+        # where must the terminator of the padded line end?
+        nxt = (pos // align + 1) * align
+        if feature == 'crlf-straddle':
+            end = nxt + 1            # LF at nxt: the line and its CR occupy up to nxt-1
+        elif feature == 'sep-straddle':
+            end = nxt                # the first LF at nxt-1; the empty lines follow
+        else:
+            end = nxt                # LF at nxt-1
+        room = end - pos - len(term) - len(last)
+        if room < 0:
+            end += align
+            room += align
+        out.append(last + 'x' * room + term)
+        pos = end
+        if feature == 'blank-start':
+            out.append(term + ' after the blank' + term)
+            pos += len(term) * 2 + len(' after the blank')
+        elif feature == 'marker-start':
+            out.append(' .' + term + ' after the marker' + term)
+            pos += len(term) * 2 + len(' .') + len(' after the marker')
+        elif feature == 'sep-straddle':
+            out.append(term + term)
+            pos += 2 * len(term)
+        elif gaps and rng.random() < .5:
+            out.append(term)
+            pos += len(term)
+    return ''.join(out)
